@@ -108,6 +108,7 @@ class World:
         if with_event:
             ns["ev"] = param.Event()
         self.W = type("W", (param.Parameterized,), ns)
+        self.W2 = type("W2", (self.W,), {})         # inherits every Parameter; class-level sets through it copy them
         self.o1 = self.W()
         self.o2 = self.W()
         self.targets = [self.o1, self.o2, self.W]
@@ -162,7 +163,7 @@ class World:
 
     def register(self, wid):
         spec = self.specs[wid]
-        t = self.targets[spec["target"]]
+        t = self.W2 if spec.get("via_subclass") else self.targets[spec["target"]]
         reg = t.param.watch_values if spec["mode"] == "kwargs" else t.param.watch
         if spec.get("dup_of") is not None:
             cb = self.cbs[spec["dup_of"]]       # the very same callback registered a second time
@@ -173,7 +174,7 @@ class World:
             onlychanged=spec["onlychanged"], queued=spec["queued"], precedence=spec["precedence"])
 
     def unregister(self, wid):
-        t = self.targets[self.specs[wid]["target"]]
+        t = self.W2 if self.specs[wid].get("via_subclass") else self.targets[self.specs[wid]["target"]]
         t.param.unwatch(self.handles[wid])
         self.handles[wid] = None
 
